@@ -84,7 +84,19 @@ static void op_h5rt(int argc, char** a)
 		if ((seed & 0x10000) && i < n / 2) v = 77.0;      /* a masked / fill region: whole chunks of one value (tiny constant streams) */
 		if (ty == SZ_FLOAT) { float f = (float)v; memcpy(data + i * 4, &f, 4); v = f; }
 		else if (ty == SZ_DOUBLE) memcpy(data + i * 8, &v, 8);
-		else { if (es == 1) v = 60.0 + fmod(v, 60.0); uint64_t z = (uint64_t)v; memcpy(data + i * es, &z, es); v = (double)z; }
+		else {
+			if (es == 1) v = 60.0 + fmod(v, 60.0);
+			int sgn = (ty == SZ_INT8 || ty == SZ_INT16 || ty == SZ_INT32 || ty == SZ_INT64);
+			if (sgn && (seed & 0x20000)) v -= (es == 1 ? 90.0 : 500.0);      /* signed element types: data on both sides of zero */
+			if (seed & 0x40000) {        /* a value range of exactly 2A in every chunk row (so that a range-relative bound is integral): -A..A signed, shifted above zero for unsigned types */
+				double A = es == 1 ? 100.0 : 1000.0;
+				double off = sgn ? 0.0 : A + (es == 1 ? 25.0 : 500.0);        /* unsigned: stay clear of 0 and of the type's maximum */
+				v = floor(A * sin((double)i * 0.07 + (double)(seed % 5))) + off;
+				if (i % 16 == 0) v = off - A;
+				if (i % 16 == 1) v = off + A;
+			}
+			int64_t zi = (int64_t)v; memcpy(data + i * es, &zi, es); v = (double)zi;
+		}
 		if (v < lo) lo = v; if (v > hi) hi = v;
 	}
 	char path[600]; const char* dir = getenv("SZV_TMP"); snprintf(path, sizeof path, "%s/szv-h5-%d.h5", dir ? dir : "/var/tmp", (int)getpid());
@@ -98,6 +110,9 @@ static void op_h5rt(int argc, char** a)
 	herr_t e1 = H5Pset_filter(pl, H5Z_FILTER_SZ, H5Z_FLAG_MANDATORY, cdn, cdv);
 	hid_t ds = H5Dcreate2(f, "d", h5type(ty), sp, H5P_DEFAULT, pl, H5P_DEFAULT);
 	herr_t e2 = ds < 0 ? -1 : H5Dwrite(ds, h5type(ty), H5S_ALL, H5S_ALL, H5P_DEFAULT, data);
+	/* what the filter recorded for the decoding side (set_local): element type and chunk shape */
+	unsigned int rcd[32]; size_t rcn = 32; unsigned int rfl = 0, rcfg = 0; long rtype = -1;
+	if (ds >= 0) { hid_t dpl = H5Dget_create_plist(ds); if (dpl >= 0) { if (H5Pget_filter_by_id2(dpl, H5Z_FILTER_SZ, &rfl, &rcn, rcd, 0, NULL, &rcfg) >= 0 && rcn >= 2) rtype = (long)rcd[1]; H5Pclose(dpl); } }
 	/* chunks are filtered when they leave the chunk cache: a filter failure surfaces in H5Dclose / H5Fclose, not in H5Dwrite */
 	herr_t e4 = ds >= 0 ? H5Dclose(ds) : -1; H5Pclose(pl); H5Sclose(sp); herr_t e5 = H5Fclose(f);
 	if (e2 >= 0 && (e4 < 0 || e5 < 0)) e2 = -2;
@@ -112,12 +127,18 @@ static void op_h5rt(int argc, char** a)
 		double err;
 		if (ty == SZ_FLOAT) { float x, y; memcpy(&x, data + i * 4, 4); memcpy(&y, back + i * 4, 4); err = fabsf(x - y); }
 		else if (ty == SZ_DOUBLE) { double x, y; memcpy(&x, data + i * 8, 8); memcpy(&y, back + i * 8, 8); err = fabs(x - y); }
-		else { uint64_t x = 0, y = 0; memcpy(&x, data + i * es, es); memcpy(&y, back + i * es, es); err = x > y ? (double)(x - y) : (double)(y - x); }
+		else {
+			int sgn = (ty == SZ_INT8 || ty == SZ_INT16 || ty == SZ_INT32 || ty == SZ_INT64);
+			uint64_t x = 0, y = 0; memcpy(&x, data + i * es, es); memcpy(&y, back + i * es, es);
+			if (sgn && es < 8) { int sh = 64 - 8 * es; x = (uint64_t)(((int64_t)(x << sh)) >> sh); y = (uint64_t)(((int64_t)(y << sh)) >> sh); }
+			if (sgn) { int64_t xs = (int64_t)x, ys = (int64_t)y; err = xs > ys ? (double)(xs - ys) : (double)(ys - xs); }
+			else err = x > y ? (double)(x - y) : (double)(y - x);
+		}
 		if (!(err <= e)) { if (!viol) first = i; viol++; }
 		if (err > maxerr || err != err) maxerr = err;
 	}
-	printf("st=%d,%d,%d n=%zx stored=%llx raw=%zx viol=%zx first=%zx maxerr=%" PRIx64 " e=%" PRIx64 "\n", (int)e1, (int)e2, (int)e3, n,
-	       (unsigned long long)stored, n * es, viol, first, dbits(maxerr), dbits(e));
+	printf("st=%d,%d,%d n=%zx stored=%llx raw=%zx viol=%zx first=%zx maxerr=%" PRIx64 " e=%" PRIx64 " rtype=%ld\n", (int)e1, (int)e2, (int)e3, n,
+	       (unsigned long long)stored, n * es, viol, first, dbits(maxerr), dbits(e), rtype);
 	free(data); free(back); free(dl); free(cl); free(cdv);
 }
 
